@@ -32,7 +32,7 @@ static void install(C& c, S& s)
     for (size_t i = 1; i <= HCAP; ++i)
     {
         auto& e              = L.m_pool[i].value;
-        e.m_value            = s.u64();
+        e.m_value            = VAL_T(s.u64());
         e.m_keyed_position.i = s.u64();
         e.m_keyed_position.m = s.b() ? &M : nullptr;
         e.m_lfu_position.i   = s.u64();
@@ -114,7 +114,7 @@ static void alpha(C& c, Abs& a)
             size_t node = nd.kv.second.i;
             auto&  e    = L.m_pool[node].value;
             a.k[p]      = c.m_keyed_elements.m_pool[e.m_keyed_position.i].kv.first;
-            a.v[p]      = e.m_value;
+            a.v[p]      = val_u(e.m_value);
             a.cnt[p]    = nd.kv.first;
 #ifdef C_IS_LFUDA
             a.age[p] = tp_i(e.m_dynamic_age);
